@@ -121,6 +121,13 @@ def configs(tier):
                         continue
                     out.append({"kind": "xor_ilvt", "depth": depth, "width": width, "nr": nr, "nw": nw, "gran": gran, "transp": transp, "init": init})
                     out.append({"kind": "onehot_ilvt", "depth": depth, "width": width, "nr": nr, "nw": nw, "gran": gran, "transp": transp, "init": init})
+    # degenerate port counts the constructors accept: a single write port, and no write port at all (a ROM)
+    for kind in ("xor", "xor_ilvt", "onehot_ilvt"):
+        for nw in (0, 1):
+            if kind == "onehot_ilvt" and nw == 1:
+                continue  # (the one-hot code of a single bank is empty: covered by the xor_ilvt single-port case of the shared base class only)
+            for init in ("empty", "nonempty"):
+                out.append({"kind": kind, "depth": 3, "width": 2, "nr": 1 if tier == "quick" else 2, "nw": nw, "gran": None, "transp": "all" if nw else "none", "init": init})
     return out
 
 
@@ -157,6 +164,13 @@ def run(cfg, ctx):
         if a is not None:
             A.append(inr(a))
     Aall = z3.And(*A) if A else z3.BoolVal(True)
+    if nw == 0 and cfg["kind"] in ("xor_ilvt", "onehot_ilvt"):
+        # A live-value-table memory without write ports (a ROM): no contract of this module describes its residual state
+        # (address registers of an empty table), so this degenerate configuration is only searched from reset —
+        # bounded, reported under bounded_parts and never counted as proved.
+        mismatch = z3.Or(*[hw.sig(prod.r[i].data) != hw.sig(prod.ir[i].data) for i in range(nr)])
+        ctx.bmc("from_reset.read_data_equals_ideal_memory[zero_write_ports]", hw, mismatch, assume=Aall, k=8)
+        return
     corr = Correspondence(hw, assume=Aall)
     ctx.notes.append(f"correspondence {cfg}: {corr.summary()}")
     E0, E1 = corr.E(False), corr.E(True)
@@ -170,10 +184,11 @@ def run(cfg, ctx):
     if any(r["verdict"] == "violated" for r in ctx.records):
         # an invariant obligation failed: look for an actual input sequence from reset on which a read port differs from the ideal memory
         mismatch = z3.Or(*[hw.sig(prod.r[i].data) != hw.sig(prod.ir[i].data) for i in range(nr)])
-        ctx.bmc("from_reset.read_data_equals_ideal_memory" + ("[granularity]" if cfg["gran"] else ""), hw, mismatch, assume=Aall, k=6)
+        tag = "[granularity]" if cfg["gran"] else "[zero_write_ports]" if (nw == 0 and cfg["kind"] != "multiread") else ""
+        ctx.bmc("from_reset.read_data_equals_ideal_memory" + tag, hw, mismatch, assume=Aall, k=6)
         for r in ctx.records:
-            if r["verdict"] == "violated" and cfg["gran"] and not r["name"].endswith("[granularity]"):
-                r["name"] += "[granularity]"
+            if r["verdict"] == "violated" and tag and not r["name"].endswith(tag):
+                r["name"] += tag
     ctx.cover("R_and_assumptions", z3.And(*pre, Aall), hw=hw)
     if nw and nw <= depth:
         ctx.cover("all_ports_active", z3.And(*pre, Aall, *[e != 0 for e in wen], *[hw.b(p.en) for p in prod.r]), hw=hw)
@@ -199,7 +214,8 @@ def one(keys, what):
 
 
 def core_invariant(cfg, prod, hw, corr):
-    if cfg["kind"] == "multiread":
+    if cfg["kind"] == "multiread" or cfg["nw"] == 0:
+        # no write port: nothing but the signal correspondence (implementation register == ideal register) is needed
         return z3.BoolVal(True), z3.BoolVal(True)
     if cfg["kind"] == "xor":
         return xor_invariant(cfg, prod.impl, prod.r, prod.ir, prod.ideal, hw, transp_set(cfg["transp"], cfg["nr"], cfg["nw"]))
